@@ -2,39 +2,47 @@
 import itertools, random
 from vlib import Case
 
-RULE = ("controlled schedules (real threads, one runnable at a time; scheduling points: every acquisition of the pool mutex, every "
-        "condition-variable wake-up, every join, the destructor's lifetime wait) of pools with 1-3 workers and 1-3 client threads issuing "
-        "1-6 submissions of the six kinds (co_await pool, co_await pool(awaitable), run(fn), run_detached, resume(suspend_point), run(async)), "
-        "job bodies that submit again or call stop() on their own pool, explicit stop() from clients, destructor at the end; random, bursty, "
-        "workers-first and clients-first schedules; thorough adds every schedule prefix of length 8 over 3 choices for small configurations; "
-        "non-trivial = at least 3 thread switches in the executed trace and (a stop()/self-stop races with a submission or >= 2 submissions); "
-        "distinct = distinct (program, schedule)")
+RULE = ("controlled schedules (real threads, one runnable at a time; scheduling points: every acquisition of the pool mutex incl. the "
+        "is_stopped/any_enqueued queries, every condition-variable wake-up, every join, the unlocked read of thread_pool::current, the "
+        "destructor's lifetime wait) of pools with 1-3 workers and 1-3 client threads issuing 1-6 submissions of the six kinds (co_await pool, "
+        "co_await pool(awaitable), run(fn), run_detached, resume(suspend_point), run(async)) whose job bodies are lists of up to 4 pool "
+        "operations (submit again / run_detached from a worker, stop() on the own pool, current::is_stopped(), current::any_enqueued(), "
+        "co_await thread_pool::current()), explicit stop() from clients, client threads calling worker(), destructor at the end (racing "
+        "with job-issued stops); random, bursty, workers-first and clients-first schedules; every schedule prefix of length 5 over 3 choices "
+        "for the two destructor-vs-job-stop configurations; thorough adds every prefix of length 8 for 9 small configurations; non-trivial = "
+        "at least 3 thread switches in the executed trace and (a stop()/self-stop races with a submission or >= 2 submissions); distinct = "
+        "distinct (program, schedule)")
 SCOPE = ("thread_pool constructor/worker()/stop()/~thread_pool/enqueue(), co_awaiter (unique_ptr deleter), enqueue_awaiter, resume(suspend_point), "
-         "run(fn), run_detached(fn), run(async), function<void()> ownership of a rejected / swapped-out closure")
+         "run(fn), run_detached(fn), run(async), current::operator co_await/is_stopped/any_enqueued, is_stopped(), any_enqueued(), "
+         "function<void()> ownership of a rejected / swapped-out closure")
 ASSUMPTIONS = [
-    "object lifetime: ~thread_pool starts after every call made by another client thread has returned and when no stop() issued by a job is "
-    "pending, in progress or still queued (otherwise a destructor racing with a job's stop() finds the worker list already swapped out and "
-    "returns while workers still use the mutex; see notes/C11.md, observation O1)",
-    "a job that called stop() on its own pool does not touch the pool afterwards (its worker is detached)",
-    "interleaving at the granularity of critical sections of the pool mutex; sequentially consistent; std::condition_variable modelled by "
-    "notification tokens (any sleeper may take a token: covers every choice of notify_one and spurious wake-ups that find the predicate false)",
-    "job bodies of the bare-handle kinds (resume(suspend_point), pool(awaitable)) do not call stop()",
+    "object lifetime: ~thread_pool starts after every call made by another client thread has returned (jobs, including jobs that call "
+    "stop(), may be running: the destructor waits for them)",
+    "a job that called stop() on its own pool does not touch the pool afterwards (its worker is detached); bodies end with stop()",
+    "a client thread that calls worker() relies on somebody else stopping the pool; if nobody does, the client program deadlocks itself "
+    "(`user_stuck` in PoolLive.v) - the generator always adds such a stop",
+    "interleaving at the granularity of critical sections of the pool mutex; sequentially consistent (the unlocked read of _exit in "
+    "current::await_ready is a data race in the C++ sense; it is modelled as one atomic step); std::condition_variable modelled: notify_all "
+    "flags the threads sleeping at that moment, notify_one adds an anonymous token (any sleeper may take it: covers every choice and "
+    "spurious wake-ups that find the predicate false)",
 ]
-TRUSTED_EXTRA = ["harness/ctl_pool.cpp maps std::condition_variable / std::thread to observing substitutes while compiling thread_pool.h"]
+TRUSTED_EXTRA = ["harness/ctl_pool.cpp maps std::condition_variable / std::thread to observing substitutes while compiling thread_pool.h",
+                 "job bodies run with the thread's coroutine ready queue switched off (a cancelled coroutine is resumed at once): the ready queue is C05's subject"]
 
 KINDS = [0, 1, 2, 3, 4, 5]
-OWNED = [0, 2, 3, 5]
-WEIGHTED_ALL = [0, 0, 2, 2, 3, 5, 5, 1, 1, 4, 4]   # the bare-handle kinds (known finding) appear in a quarter of the programs
+# body actions: 0..5 submit a closure of that kind, 6 stop() (last), 7 is_stopped(), 8 any_enqueued(), 9 co_await current()
 
 
 def mk(name, n, prog, sched):
-    """prog: list of ('s', client, kind, body, bkind) | ('x', client)"""
+    """prog: list of ('s', client, kind, [actions]) | ('x', client) stop | ('w', client) worker()"""
     ops = [[1, n]]
     for p in prog:
         if p[0] == 's':
-            ops.append([2, p[1], p[2], p[3], p[4]])
-        else:
+            ops.append([2, p[1], p[2]] + list(p[3]))
+        elif p[0] == 'x':
             ops.append([3, p[1]])
+        else:
+            ops.append([4, p[1]])
     ops.append([9] + list(sched))
     return Case("pool", name, ops)
 
@@ -56,17 +64,32 @@ def rand_sched(rng, L, nthreads):
     return [rng.choice([0, 1]) for _ in range(L)]
 
 
+def rand_body(rng):
+    r = rng.random()
+    if r < 0.4:
+        return []
+    n = rng.choice([1, 1, 1, 2, 2, 3, 4])
+    acts = []
+    for _ in range(n):
+        x = rng.random()
+        if x < 0.5:
+            acts.append(rng.choice(KINDS))
+        elif x < 0.65:
+            acts.append(rng.choice([7, 8]))
+        elif x < 0.85:
+            acts.append(9)
+        else:
+            acts.append(6)
+            break
+    return acts
+
+
 def gen_prog(rng):
-    WEIGHTED = WEIGHTED_ALL if rng.random() < 0.25 else OWNED
     m = rng.choice([1, 1, 2, 2, 3])
     ns = rng.choice([1, 2, 2, 3, 3, 4, 5, 6])
     prog = []
     for _ in range(ns):
-        cl = rng.randrange(m)
-        k = rng.choice(WEIGHTED)
-        r = rng.random()
-        body = 0 if r < 0.5 else (1 if r < 0.78 else 2)
-        prog.append(('s', cl, k, body, rng.choice(WEIGHTED)))
+        prog.append(('s', rng.randrange(m), rng.choice(KINDS), rand_body(rng)))
     # explicit stops: none / one somewhere / one on another client racing with the submissions / two
     r = rng.random()
     if r < 0.35:
@@ -76,10 +99,19 @@ def gen_prog(rng):
     elif r < 0.9:
         prog.insert(rng.randrange(len(prog) + 1), ('x', m - 1))
         if m > 1:
-            prog.append(('s', 0, rng.choice(WEIGHTED), 0, 0))
+            prog.append(('s', 0, rng.choice(KINDS), []))
     else:
         prog.insert(rng.randrange(len(prog) + 1), ('x', rng.randrange(m)))
         prog.insert(rng.randrange(len(prog) + 1), ('x', rng.randrange(m)))
+    # an external thread becomes a worker; client 0 stops the pool at the end so that worker() returns
+    if m > 1 and rng.random() < 0.25:
+        if rng.random() < 0.7:
+            prog.insert(rng.randrange(len(prog) + 1), ('w', rng.randrange(1, m)))
+            prog.append(('x', 0))
+        else:
+            # client 0 itself works in the pool until another client stops it, then destroys it
+            prog.insert(rng.randrange(len(prog) + 1), ('w', 0))
+            prog.append(('x', rng.randrange(1, m)))
     return m, prog
 
 
@@ -90,11 +122,18 @@ def gen(seed, tier):
     # fixed boundary programs: every kind submitted to a stopped pool / swapped out by stop / run, pool of 1
     b = 0
     for k in KINDS:
-        cases.append(mk("b%d" % b, 1, [('x', 0), ('s', 0, k, 0, 0)], [])); b += 1             # rejected in the caller
-        cases.append(mk("b%d" % b, 1, [('s', 0, 3, 0, 0), ('s', 0, k, 0, 0), ('x', 0)], [0] * 6)); b += 1   # swapped out
-        cases.append(mk("b%d" % b, 2, [('s', 0, k, 0, 0)], [1, 1, 1, 0])); b += 1              # runs
-        cases.append(mk("b%d" % b, 1, [('s', 0, 2, 2, 0), ('s', 0, k, 0, 0)], [0, 0, 1, 1, 1, 1])); b += 1  # swapped out by a self-stop
-        cases.append(mk("b%d" % b, 2, [('s', 0, 0, 1, k), ('x', 1)], [0, 2, 1, 1, 0, 0])); b += 1           # nested submission after stop
+        cases.append(mk("b%d" % b, 1, [('x', 0), ('s', 0, k, [])], [])); b += 1              # rejected in the caller
+        cases.append(mk("b%d" % b, 1, [('s', 0, 3, []), ('s', 0, k, []), ('x', 0)], [0] * 6)); b += 1   # swapped out
+        cases.append(mk("b%d" % b, 2, [('s', 0, k, [])], [1, 1, 1, 0])); b += 1              # runs
+        cases.append(mk("b%d" % b, 1, [('s', 0, 2, [6]), ('s', 0, k, [])], [0, 0, 1, 1, 1, 1])); b += 1   # swapped out by a self-stop
+        cases.append(mk("b%d" % b, 2, [('s', 0, 0, [k]), ('x', 1)], [0, 2, 1, 1, 0, 0])); b += 1         # nested submission after stop
+        cases.append(mk("b%d" % b, 2, [('s', 0, k, [7, 9, 8, k]), ('x', 1)], [1, 1, 2, 0, 2, 2, 1])); b += 1   # queries + hop
+    # destructor against a stop() issued by a job: the destructor must wait for that stop
+    for pre in itertools.product(range(3), repeat=5):
+        cases.append(mk("d%d" % b, 2, [('s', 0, 3, [6]), ('s', 0, 3, [])], list(pre) + [0] * 4)); b += 1
+    # a client thread that worked in the pool (worker()) destroys it while a job-issued stop() is still joining
+    for pre in itertools.product(range(3), repeat=5):
+        cases.append(mk("e%d" % b, 2, [('s', 0, 3, [6]), ('s', 0, 3, []), ('w', 0)], list(pre) + [1, 2, 0, 1, 2, 0])); b += 1
     for i in range(n_cases):
         n = rng.choice([1, 1, 2, 2, 3])
         m, prog = gen_prog(rng)
@@ -102,24 +141,41 @@ def gen(seed, tier):
         cases.append(mk("g%d" % i, n, prog, rand_sched(rng, L, m + n)))
     # malformed stream: bad kinds / clients / sizes are ignored identically on both sides
     for i in range(12):
-        ops = [[1, rng.choice([0, 1, 2, 7])], [2, rng.choice([0, 5]), rng.choice([0, 9]), rng.choice([0, 3]), rng.choice([0, 6])],
-               [2, 0, 2, 0], [3, rng.choice([1, 4])], [2, 1, rng.choice(KINDS), 1, 3], [7, 1], [9] + [rng.randint(0, 4) for _ in range(10)]]
+        ops = [[1, rng.choice([0, 1, 2, 7])], [2, rng.choice([0, 5]), rng.choice([0, 9]), rng.choice([0, 3]), rng.choice([0, 12])],
+               [2, 0, 2, 6, 0], [2, 0], [3, rng.choice([1, 4])], [2, 1, rng.choice(KINDS), 1, 3, 9, 9, 9, 9, 9], [7, 1], [4, 3],
+               [9] + [rng.randint(0, 4) for _ in range(10)]]
         cases.append(Case("pool", "m%d" % i, ops))
     if tier != "quick":
         cfgs = [
-            (1, [('s', 0, 0, 0, 0), ('s', 0, 2, 0, 0), ('x', 0)]),
-            (2, [('s', 0, 3, 2, 0), ('s', 0, 0, 0, 0)]),
-            (2, [('s', 0, 0, 1, 2), ('x', 1)]),
-            (1, [('s', 0, 5, 0, 0), ('x', 1), ('s', 0, 4, 0, 0)]),
-            (2, [('s', 0, 2, 2, 0), ('s', 1, 3, 2, 0)]),
-            (3, [('s', 0, 1, 0, 0), ('s', 0, 3, 0, 0), ('s', 0, 0, 0, 0)]),
-            (2, [('s', 0, 0, 2, 0), ('s', 1, 2, 1, 0), ('x', 1)]),
+            (1, [('s', 0, 0, []), ('s', 0, 2, []), ('x', 0)]),
+            (2, [('s', 0, 3, [6]), ('s', 0, 0, [])]),
+            (2, [('s', 0, 0, [2]), ('x', 1)]),
+            (1, [('s', 0, 5, []), ('x', 1), ('s', 0, 4, [])]),
+            (2, [('s', 0, 2, [6]), ('s', 1, 3, [6])]),
+            (3, [('s', 0, 1, []), ('s', 0, 3, []), ('s', 0, 0, [])]),
+            (2, [('s', 0, 0, [6]), ('s', 1, 2, [0]), ('x', 1)]),
+            (1, [('s', 0, 3, [9, 3]), ('w', 1), ('x', 0)]),
+            (2, [('s', 0, 4, [7, 9, 6]), ('s', 1, 1, [])]),
         ]
         j = 0
         for (n, prog) in cfgs:
             for pre in itertools.product(range(3), repeat=8):
                 cases.append(mk("x%d" % j, n, prog, pre)); j += 1
     return cases
+
+
+def close_case(c):
+    """a client thread that calls worker() needs somebody else to stop the pool (otherwise the client program deadlocks itself,
+    which is not the pool's fault): keep shrunk cases inside the class of programs the property speaks about"""
+    ops = [list(o) for o in c.ops]
+    workers = [o[1] for o in ops if len(o) == 2 and o[0] == 4 and 0 <= o[1] <= 2]
+    if workers:
+        last_w = max(i for i, o in enumerate(ops) if len(o) == 2 and o[0] == 4)
+        cl = ops[last_w][1]
+        if not any(len(o) == 2 and o[0] == 3 and o[1] != cl and 0 <= o[1] <= 2 for o in ops[last_w:]):
+            sched = [o for o in ops if o and o[0] == 9]
+            ops = [o for o in ops if not (o and o[0] == 9)] + [[3, 1 if cl == 0 else 0]] + sched
+    return Case(c.engine, c.name, ops, c.meta)
 
 
 def canon(obs):
@@ -142,7 +198,7 @@ def nontrivial(case, model_obs):
     tids = [l.split()[0] for l in model_obs if len(l.split()) == 2]
     switches = sum(1 for a, b in zip(tids, tids[1:]) if a != b)
     subs = sum(1 for o in case.ops if o and o[0] == 2)
-    stops = sum(1 for o in case.ops if o and (o[0] == 3 or (o[0] == 2 and len(o) == 5 and o[3] == 2)))
+    stops = sum(1 for o in case.ops if o and (o[0] == 3 or (o[0] == 2 and 6 in o[3:])))
     return switches >= 3 and (subs >= 2 or (subs >= 1 and stops >= 1))
 
 
@@ -158,19 +214,6 @@ def signature(case, impl_obs, model_obs):
         return "pool:use-after-destroy"
     if any(l.startswith("666") for l in impl_obs):
         return "pool:yield-under-lock"
-    forgotten, other = 0, 0
-    for l in impl_obs:
-        a = l.split()
-        if a[0] == "200" and len(a) == 7:
-            kind, ran, canc, ws = int(a[2]), int(a[3]), int(a[4]), int(a[5])
-            if kind in (1, 4) and ran == 0 and canc == 0 and ws == 0:
-                forgotten += 1      # bare [h] closure destroyed un-run: nobody resumes the coroutine
-            elif ran + canc != 1 or ws != (1 if ran == 1 else 2):
-                other += 1
-        elif a[0] == "100" and (len(a) != 5 or a[4] != "0"):
-            other += 1
-    if forgotten and not other and obs_equal(case, model_obs, impl_obs):
-        return "pool:bare-handle-forgotten"
     return "pool:oracle"
 
 
